@@ -996,7 +996,7 @@ package keyvalue
 //@ spec baseOf(f *file) := fRec(f).record.(*BaseFileRecord)
 //@ spec newHandle(f *file, fs *FS, path string, flag int, mode hackpadfs.FileMode) := f != nil && fresh(f) && f.fileData != nil && fresh(f.fileData) && f.fileData.path == path && f.fileData.fs == fs &&
 //@        f.flag == flag && f.offset == 0 && !f.closed && f.fileData.modeOverride == nil && f.fileData.modTimeOverride == 0 &&
-//@        isBaseRec(fRec(f).record) && baseOf(f) != nil && fresh(baseOf(f)) && baseOf(f).mode == mode && isNewRec(fRec(f).record) &&
+//@        isBaseRec(fRec(f).record) && baseOf(f) != nil && fresh(baseOf(f)) && baseOf(f).mode == mode && baseOf(f).initialSize == 0 && isNewRec(fRec(f).record) &&
 //@        fRec(f).dataDone == 0 && !oncedone(fRec(f).dataOnce) && !oncedone(fRec(f).dirNamesOnce) && !oncedone(fRec(f).modeOnce) && !oncedone(fRec(f).modTimeOnce) && !oncedone(fRec(f).sysOnce)
 
 //@ func (fs *FS) newFile(path string, flag int, mode hackpadfs.FileMode) (f *file)
